@@ -71,8 +71,11 @@ def gen_program(rng, cfg):
     # one program in six: every exception instance the user code raises is falsy (an exception
     # class with __bool__/__len__). Decided by a digest of the program, not by the generator's
     # random stream (explicit, shrinkable key in the spec).
-    if zlib.crc32(json.dumps(spec, sort_keys=True).encode()) % 6 == 0:
+    d = zlib.crc32(json.dumps(spec, sort_keys=True).encode())
+    if d % 6 == 0:
         spec["falsy_errors"] = True
+    if (d // 6) % 3 == 0:
+        spec["falsy_holder"] = True
     return spec
 
 
